@@ -1161,45 +1161,65 @@ Example C02_round_trip_example :
       Forall2 (final_rel lm0) (hov_hit_objects (bmv_ho m)) (hov_hit_objects (bmv_ho m2)).
 Proof. exact all_kinds_round_trip. Qed.
 
-(* ---------- status of the remaining obligations ----------
+(* ---------- status of the obligations ----------
+
+   TOP LEVEL  C02_round_trip_decoded_map: ONE statement for a decoded map outside the recorded
+     classes -- simple sections (T02a), timing points and the three timelines (T02d), hit objects one
+     to one in [final_rel] (T02b / T02e) -- about decoding `map render (encode_lines m)`, i.e. the
+     per-section results pushed through the framing theorem (C05) and the Beatmap decoder's
+     delegation (C07): C02_decode_of_encoding_simple_sections, C02_decode_of_encoding_timing,
+     C02_decode_of_encoding_hit_objects, C02_encoding_computed_sections, C02_encoding_is_routed.
+     Hypotheses satisfiable: C02_round_trip_hypotheses_example / C02_round_trip_example (a decoded
+     map with a circle, a slider, a spinner, a hold, a break and an inherited timing line; real curve
+     and slider-event models).  The lines are the decoder's line list; the byte / text layer is
+     C08 / C10.
 
    T02b  circles / spinners / holds: MECHANISED per line, up to [carry_object] (per-sample volume /
-     custom index / suffix / layering erased), and for decoded maps with the hypotheses discharged:
-     C02_decoded_circle_round_trip has no hypothesis beyond class D30 (sample file name ending in
-     white space: C04_sample_name_trimmed_refuted); spinners and holds additionally exclude D26
-     (start + duration leaves the parse limit by rounding: C02_decoded_end_beyond_limit_refuted)
-     and keep ONE open side condition, [spinner_time_ok] / [hold_time_ok] (fl(fl(start + d) - start)
-     = d) for non-integer times (C02_times_ok_partial covers integer times).  [object_ok],
-     [samples_image], [kind_image] are facts about every decoded map (C02_decoded_object_ok,
-     C02_decoded_objects_shape, C04_decoded_samples_image).
+     custom index / suffix / layering erased), for decoded maps with the hypotheses discharged
+     (C02_decoded_circle_round_trip: no hypothesis beyond class D30; spinners and holds additionally
+     exclude D26 and D33), and COMPOSED over the whole [HitObjects] section and the map-level
+     processing of the second decode (C02_hit_object_lines_reread, C02_decode_of_encoding_hit_objects:
+     the stable sort is the identity on the sorted written list, the parser and the break
+     post-processing re-derive new-combo flags that are set -- [combo_chain], which holds when the
+     hit-object lines of the input were chronological, the property's hypothesis; NOT proved here
+     from the chronology of the input lines, it is a hypothesis on the decoded map --,
+     SamplePoint::apply touches only what carry_object erases).
+     The time condition fl(fl(start + d) - start) = d is FALSE in general: C02_times_ok_refuted,
+     known finding D33 (confirmed on the crate).  PROVED for every pair of accepted times whose
+     difference is a binary64 number (C02_times_ok_exact_difference; binary grids: C02_times_ok_grid,
+     C02_times_ok_grid21; whole milliseconds: C02_times_ok_whole_milliseconds, C02_times_ok_partial)
+     and whenever the written end is the end that was read (C02_times_ok_of_end).  OPEN between these
+     classes and D33: pairs whose difference is rounded but whose duration survives (most
+     fractional times; the oracle checks each instance).
 
    T02c  slider path strings: MECHANISED in full (C02_path_round_trip on the decoder's image
      C02_path_image_is_decoder_image, outside D13 / D17 / consecutive Catmull).
 
    T02d  timing points and the three timelines: MECHANISED for decoded maps
-     (C02_timing_round_trip_decoded).  The value side conditions (clamps, finite times), "written
-     numbers within the parse limits" and the float fact "every stored velocity survives
-     -100/sv -> 100/-x" are FACTS about every decoded map (C02_decoded_control_point_limits,
-     C02_written_beat_fields_within_limits, C02_decoded_timing_invariants,
-     C02_image_sv_round_trips from the real-number theorem C02_three_divisions).  The only
-     hypotheses left are the recorded classes [rt_classes], every clause of which is refuted by a
-     decodable input: separated times (D28, D8), separated values (D27), scroll speed following
-     slider velocity (D12), sample-point times within the limits (D26, D32).
+     (C02_timing_round_trip_decoded) and COMPOSED with the framing theorem
+     (C02_decode_of_encoding_timing: the timing points and timelines of the map the second decode
+     returns).  The value side conditions, "written numbers within the parse limits" and "every stored
+     velocity survives -100/sv -> 100/-x" are FACTS about every decoded map; the only hypotheses are
+     the recorded classes [rt_classes] (D28 / D8, D27, D12, D26 / D32), each refuted by a decodable
+     input.
 
-   T02e  sliders end to end: MECHANISED per line (C02_slider_round_trip_partial): accepted in every
-     parser state of the slider's mode, same start time, position, control points, repeat count,
-     node count, and the SAME CURVE (path and cumulative lengths), through the expected-length
-     semantics (explicit length re-requested; natural length written, re-read as an explicit length
-     equal to the natural one, which keeps the natural curve: C02_curve_reread, from C16's exact
-     comparison); the velocity is a function of data shown equal by T02a / T02d
-     (C02_slider_velocity_round_trip).  Hypotheses: [slider_ok] (outside D13 / D17 / consecutive
-     Catmull / D21, representable samples: outside D30) and the parser state's mode (class D22 on
-     the original input).  Not stated: node SAMPLE names/banks of the re-read slider (file names on
-     nodes are lost: new class D31), and the composition of the [TimingPoints] / [HitObjects]
-     per-section results with the framing theorem (done for the simple sections:
-     C02_decode_of_encoding_simple_sections, C02_encoding_is_routed).
+   T02e  sliders end to end: MECHANISED per line (C02_slider_round_trip_partial, and with every field
+     of the re-read slider C02_slider_round_trip_full) and COMPOSED (the slider clause of
+     [final_rel]): same start, position, control points, repeat count, node count, THE SAME CURVE,
+     mode, new-combo flag, names and banks of its own samples and of every node that is in the
+     decoder's image and holds no file name (C02_slider_node_samples_round_trip; a file name on a
+     node is class D31: C02_slider_node_file_name_lost).  Hypotheses: [slider_ok] (outside D13 / D17 /
+     consecutive Catmull / D21 / D30), a computable curve, and "read under the map's mode" (the other
+     order on the original input is class D22).  LEFT OPEN: (1) "every node of every decoded slider
+     satisfies [samples_image] and every decoded slider's own samples hold no file name" are
+     invariants of the decoder that are NOT mechanised (they appear as premises inside [final_rel];
+     C02_round_trip_nodes_example shows them on a decoded slider); (2) the velocity of the re-read
+     slider is not part of [final_rel]: it is a function of data shown equal
+     (C02_slider_velocity_round_trip needs both maps decoded with the same curve function);
+     (3) the combo offset of a slider is shown to survive only next to the new-combo bit (an offset
+     without the bit cannot be produced by the decoder, not mechanised for sliders).
 
    Everything above is also covered by the bit-exact `enc` correspondence (decode + encode model
    against the crate, slider files included) and by the C02 oracle, which compares exactly the
    items the property lists on the real crate; the classes D12, D13, D17, D21, D22, D23, D26, D27,
-   D28, D30, D31 are the only failures it reports on the pinned tree. *)
+   D28, D30, D31, D33 are the only failures it reports on the pinned tree. *)
